@@ -377,6 +377,7 @@ func runRouting(r *simkit.Run, prop string) {
 	tp := r.Tape
 	t := genTopo(tp, false)
 	r.Sample = t
+	r.Logf("topology %+v", t.Pipes)
 	w := NewWorld(r)
 	cfg := t.serviceConfig()
 	srv, err := service.New(context.Background(), w.serviceSettings(&t), cfg)
